@@ -102,7 +102,7 @@ def run(ck):
         seen.add(key)
         ck.report(dict(input=cases[ci]["line"], events=cases[ci]["events"][:k], failing_state_index=k), oracle=key, key="refine:" + key,
                   what="pass/operation number %d of the history: %s" % (k, f))
-    if broken and not fails:
+    if broken and not ck.violations:
         ci, k, d = broken[0]
         ck.report(dict(input=cases[ci]["line"], failing_state_index=k, difference=d, n_disagreements=len(broken)),
                   unchecked="correspondence MeshOps.replay(trace) = implementation store after the pass",
